@@ -131,9 +131,12 @@ macro_rules! builder {
           let reg = env.groups.clone();
           let base = (env.subjects.len() + env.behaviors.len()) as i64;
           let mut seen: Vec<Val> = vec![];
+          let mut asked = 0i64;
           $fname(env, ast.s1)
             .group_by::<_, _, $subject>(move |v: &Val| {
-              let k = keyf(a, v);
+              // key function 3 is stateful (the operator takes an FnMut): 0, 1, 0, 1, ...
+              let k = if a == 3 { Val::I(asked % 2) } else { keyf(a, v) };
+              asked += 1;
               if !seen.contains(&k) {
                 seen.push(k.clone());
                 let mut r = reg.lock().unwrap();
